@@ -330,6 +330,7 @@ def run(chk):
     c02.rule_usage_eval(chk, prefix="C05.usage")      # which globals an entry point reaches (is_used is computed from it)
     if not rule_stage_eval(chk):
         rule_thread_group(chk)
+    rule_thread_group_values(chk)
 
 
 def rule_annotations(chk):
@@ -703,6 +704,63 @@ def stage_declared_only(f):
             continue
         out[st] = r.variant if isinstance(r, I.Enum) else ("unreadable", repr(r)[:60])
     return out
+
+
+def rule_thread_group_values(chk, prefix="C05.threads"):
+    """add_stage walked for an entry point with [numthreads(x, y, z)] whose arguments fold (evaluate_constexpr scripted) to
+    constants of every integer kind at and beyond the ends of the uint range: the reported thread-group size is exactly
+    the arguments' values, in order, and a value that is not a uint (negative, above 2^32-1) is refused, never wrapped."""
+    import interp as I
+    f = chk.facts
+    fn = f.fn("add_stage", "rssl_typer")
+    if not fn:
+        return      # C05.anchor/add_stage fails closed
+    opt = lambda v: I.Enum("Option", "None") if v is None else I.Enum("Option", "Some", {"0": v})
+
+    def deref(v):
+        return v.get() if isinstance(v, I.Ref) else v
+    K = lambda kind, v: I.Enum("Constant", kind, {"0": v})
+    samples = [("UInt32", 8), ("UInt32", 0xFFFFFFFF), ("UInt32", 0), ("Int32", 3), ("Int32", 0x7FFFFFFF), ("Int32", -1), ("Int32", -(1 << 31)),
+               ("IntLiteral", 64), ("IntLiteral", 0xFFFFFFFF), ("IntLiteral", (1 << 32) + 8), ("IntLiteral", 1 << 32), ("IntLiteral", -1), ("IntLiteral", (1 << 40) + 1)]
+    bad = None
+    n = 0
+    for kind, v in samples:
+        for pos in (0, 2):
+            vals = [K("UInt32", 2), K("UInt32", 3), K("UInt32", 4)]
+            vals[pos] = K(kind, v)
+            tags = [I.Enum("Expression", "Literal", {"0": I.Enum("Constant", "String", {"0": "arg%d" % i})}) for i in range(3)]
+            ext = {"FunctionRegistry::iter": lambda a: [I.Enum("FunctionId", None, {"0": i}) for i in range(2)],
+                   "FunctionRegistry::get_function_name": lambda a: ["helper", "Entry"][deref(a[1]).fields["0"]],
+                   "FunctionRegistry::get_function_implementation": lambda a, tags=tags: opt(I.Enum("FunctionImplementation", None, {
+                       "attributes": [I.Enum("FunctionAttribute", "NumThreads", {"0": tags[0], "1": tags[1], "2": tags[2]})]})),
+                   "evaluate_constexpr": lambda a, vals=vals: I.Enum("Result", "Ok", {"0": vals[int(deref(a[0]).fields["0"].fields["0"][3:])]})}
+            ip = I.Interp(f, max_depth=6, extern=ext)
+            ident = I.Enum("ScopedIdentifier", None, {"base": I.Enum("ScopedIdentifierBase", "Relative"), "identifiers": [I.Enum("Located", None, {"node": "Entry", "location": I.Opaque("location")})]})
+            entry = I.Enum("Located", None, {"node": I.Enum("PipelinePropertyValue", "Single", {"0": I.Enum("Expression", "Identifier", {"0": ident})}), "location": I.Opaque("location")})
+            ctx = I.Enum("Context", None, {"module": I.Enum("Module", None, {"function_registry": I.Opaque("function registry")})})
+            pdef = I.Enum("PipelineDefinition", None, {"stages": []})
+            try:
+                r = ip.apply(fn, [entry, I.Enum("ShaderStage", "Compute"), ctx, pdef])
+            except I.Unknown as e:
+                if "panicking" in str(e):
+                    bad = bad or "[numthreads] with an argument that folds to %s(%d) aborts (%s)" % (kind, v, str(e)[:60])
+                    continue
+                chk.note("%s/values: add_stage is not readable (%s); not decided" % (prefix, str(e)[:80]))
+                return
+            n += 1
+            want = [2, 3, 4]
+            want[pos] = v
+            fits = 0 <= v <= 0xFFFFFFFF
+            if isinstance(r, I.Enum) and r.variant == "Ok":
+                st = pdef.fields["stages"]
+                tg = st[0].fields.get("thread_group_size") if st else None
+                got = list(tg.fields["0"]) if isinstance(tg, I.Enum) and tg.variant == "Some" else None
+                if got != want and bad is None:
+                    bad = "[numthreads] whose argument %d folds to %s(%d) is reported as thread-group size %s%s" % (
+                        pos, kind, v, got, "; the value is not a uint and must be refused" if not fits else ", must be %s" % want)
+            elif fits and bad is None:
+                bad = "[numthreads] whose argument %d folds to %s(%d) is refused" % (pos, kind, v)
+    chk.ob(prefix + "/values", bad is None, bad or "%d argument lists: the reported size is the folded values, out-of-range values are refused" % n, where(fn), sample={"lists": n})
 
 
 def rule_thread_group(chk):
